@@ -241,6 +241,80 @@ def joinpath_div(tree):
     return V().visit(tree)
 
 
+def collect_private(trees):
+    names = set()
+    for t in trees:
+        for n in ast.walk(t):
+            if isinstance(n, ast.FunctionDef) and n.name.startswith('_') and not n.name.startswith('__'):
+                names.add(n.name)
+            if isinstance(n, (ast.Assign, ast.AnnAssign)):
+                tg = n.targets if isinstance(n, ast.Assign) else [n.target]
+                for x in tg:
+                    for y in ast.walk(x):
+                        if isinstance(y, ast.Attribute) and isinstance(y.value, ast.Name) and y.value.id in ('self', 'cls') \
+                                and y.attr.startswith('_') and not y.attr.startswith('__'):
+                            names.add(y.attr)
+            if isinstance(n, ast.ClassDef):
+                for st in n.body:
+                    if isinstance(st, ast.Assign):
+                        for x in st.targets:
+                            if isinstance(x, ast.Name) and x.id.startswith('_') and not x.id.startswith('__'):
+                                names.add(x.id)
+    return names - {'_mmap', '_version', '_formatversion'}
+
+
+def rename_private(tree, names):
+    class V(ast.NodeTransformer):
+        def visit_FunctionDef(self, n):
+            self.generic_visit(n)
+            if n.name in names:
+                n.name = n.name + 'x'
+            return n
+
+        def visit_Attribute(self, n):
+            self.generic_visit(n)
+            if n.attr in names:
+                n.attr = n.attr + 'x'
+            return n
+
+        def visit_Name(self, n):
+            if n.id in names:
+                n.id = n.id + 'x'
+            return n
+
+        def visit_Constant(self, n):
+            if isinstance(n.value, str) and n.value in names:
+                return ast.copy_location(ast.Constant(value=n.value + 'x'), n)
+            return n
+    return V().visit(tree)
+
+
+def rename_private_params(tree, sigs):
+    """sigs: private function name (unique in the package) -> list of parameter names to rename (p -> p_)."""
+    class V(ast.NodeTransformer):
+        def visit_FunctionDef(self, fn):
+            self.generic_visit(fn)
+            if fn.name in sigs:
+                ps = set(sigs[fn.name])
+                for a in fn.args.args + fn.args.kwonlyargs:
+                    if a.arg in ps:
+                        a.arg = a.arg + '_'
+                for n in ast.walk(fn):
+                    if isinstance(n, ast.Name) and n.id in ps:
+                        n.id = n.id + '_'
+            return fn
+
+        def visit_Call(self, n):
+            self.generic_visit(n)
+            nm = n.func.attr if isinstance(n.func, ast.Attribute) else (n.func.id if isinstance(n.func, ast.Name) else None)
+            if nm in sigs:
+                for k in n.keywords:
+                    if k.arg in sigs[nm]:
+                        k.arg = k.arg + '_'
+            return n
+    return V().visit(tree)
+
+
 def main():
     mode, root = sys.argv[1], sys.argv[2]
     d = os.path.join(root, 'darr')
@@ -289,6 +363,25 @@ def main():
             tree = temporaries(tree)
         elif mode == 'joinpath-div':
             tree = joinpath_div(tree)
+        elif mode == 'rename-private':
+            if 'PRIV' not in globals():
+                trees = [ast.parse(open(os.path.join(d, x), encoding='utf-8').read()) for x in sorted(os.listdir(d))
+                         if x.endswith('.py') and x not in SKIP]
+                globals()['PRIV'] = collect_private(trees)
+            tree = rename_private(tree, globals()['PRIV'])
+        elif mode == 'rename-private-params':
+            if 'PSIGS' not in globals():
+                cnt, sig = {}, {}
+                for x in sorted(os.listdir(d)):
+                    if x.endswith('.py') and x not in SKIP:
+                        for n in ast.walk(ast.parse(open(os.path.join(d, x), encoding='utf-8').read())):
+                            if isinstance(n, ast.FunctionDef):
+                                cnt[n.name] = cnt.get(n.name, 0) + 1
+                                if n.name.startswith('_') and not n.name.startswith('__') and not n.args.vararg and not n.args.kwarg \
+                                        and not any(isinstance(y, (ast.FunctionDef, ast.Lambda)) for y in ast.walk(n) if y is not n):
+                                    sig[n.name] = [a.arg for a in n.args.args + n.args.kwonlyargs if a.arg not in ('self', 'cls')]
+                globals()['PSIGS'] = {k: v for k, v in sig.items() if cnt[k] == 1 and v}
+            tree = rename_private_params(tree, globals()['PSIGS'])
         elif mode == 'unparse':
             pass
         else:
